@@ -280,9 +280,12 @@ var (
 		{"PUT", mValid, "PUT"}, {"PATCH", mValid, "PATCH"}, {"DELETE", mValid, "DELETE"}, {"OPTIONS", mValid, "OPTIONS"},
 		{"PURGE", mValid, "PURGE"}, {"patch", mValid, "patch"}, {"put", mValid, "PUT"}, {"Delete", mValid, "DELETE"},
 		{"oPtIoNs", mValid, "OPTIONS"}, {"CHICKEN", mValid, "CHICKEN"}, {"Chicken", mValid, "Chicken"}, {"QUERY", mValid, "QUERY"},
+		{"OPTIONS-LIST", mValid, "OPTIONS-LIST"}, {"optionsX", mValid, "optionsX"}, {"PUTT", mValid, "PUTT"}, {"putx", mValid, "putx"}, {"DELETED", mValid, "DELETED"},
+		{"GETX", mValid, "GETX"}, {"postal", mValid, "postal"}, {"HEADER", mValid, "HEADER"}, {"CONNECTED", mValid, "CONNECTED"}, {"TRACER", mValid, "TRACER"},
+		{"PU", mValid, "PU"}, {"M!#$%&'*+.^_`|~", mValid, "M!#$%&'*+.^_`|~"},
 	}
 	safelistedMethodAtoms = []MAtom{
-		{"GET", mSafelisted, "GET"}, {"HEAD", mSafelisted, "HEAD"}, {"POST", mSafelisted, "POST"}, {"get", mSafelisted, "GET"}, {"Post", mSafelisted, "POST"},
+		{"GET", mSafelisted, "GET"}, {"HEAD", mSafelisted, "HEAD"}, {"POST", mSafelisted, "POST"}, {"get", mSafelisted, "GET"}, {"Post", mSafelisted, "POST"}, {"head", mSafelisted, "HEAD"},
 	}
 	forbiddenMethodAtoms = []MAtom{
 		{"CONNECT", mForbidden, ""}, {"TRACE", mForbidden, ""}, {"TRACK", mForbidden, ""}, {"connect", mForbidden, ""}, {"Trace", mForbidden, ""}, {"tRaCk", mForbidden, ""},
@@ -301,7 +304,8 @@ func hk(raw string, k HKind) HAtom {
 
 var (
 	validReqHdrAtoms = []HAtom{hv("Content-Type"), hv("X-Api-Key"), hv("x-requested-with"), hv("X-LISTED-1"), hv("x-listed-2"),
-		hv("Accept"), hv("If-None-Match"), hv("Foo"), hv("x-a"), hv("x-ab"), hv("X"), hv("Access-Control-Foo")}
+		hv("Accept"), hv("If-None-Match"), hv("Foo"), hv("x-a"), hv("x-ab"), hv("X"), hv("Access-Control-Foo"),
+		hv("X_Request_Id"), hv("x_trace_id"), hv("X^Caret"), hv("X.Dot"), hv("X!#$%&'*+.^_`|~Z"), hv("Accept-Language"), hv("x-9")}
 	authReqHdrAtoms      = []HAtom{hk("Authorization", hAuth), hk("authorization", hAuth), hk("AUTHORIZATION", hAuth), hk("aUtHoRiZaTiOn", hAuth)}
 	forbiddenReqHdrAtoms = []HAtom{hk("Cookie", hForbidden), hk("Host", hForbidden), hk("origin", hForbidden), hk("Sec-Fetch-Mode", hForbidden),
 		hk("Proxy-Authorization", hForbidden), hk("sec-x", hForbidden), hk("PROXY-foo", hForbidden), hk("Access-Control-Request-Method", hForbidden),
@@ -316,7 +320,8 @@ var (
 		hk("X-Foo\x00", hInvalid), hk(" X-Foo", hInvalid), hk("X-Foo ", hInvalid), hk("(x)", hInvalid), hk("x/y", hInvalid), hk("X-Foo\r\n", hInvalid)}
 	hStarAtom = HAtom{"*", hStar, "*"}
 
-	validRespHdrAtoms      = []HAtom{hv("X-Response-Time"), hv("ETag"), hv("location"), hv("X-Exposed-1"), hv("x-exposed-2"), hv("Link"), hv("X-A"), hv("x-b")}
+	validRespHdrAtoms      = []HAtom{hv("X-Response-Time"), hv("ETag"), hv("location"), hv("X-Exposed-1"), hv("x-exposed-2"), hv("Link"), hv("X-A"), hv("x-b"),
+		hv("X_Rate_Limit"), hv("X^Up"), hv("X.Y~Z")}
 	safelistedRespHdrAtoms = []HAtom{hk("Cache-Control", hSafelisted), hk("content-language", hSafelisted), hk("Content-Length", hSafelisted),
 		hk("CONTENT-TYPE", hSafelisted), hk("Expires", hSafelisted), hk("Last-Modified", hSafelisted), hk("pragma", hSafelisted)}
 	forbiddenRespHdrAtoms  = []HAtom{hk("Set-Cookie", hForbidden), hk("set-cookie2", hForbidden), hk("SET-COOKIE", hForbidden)}
